@@ -186,10 +186,18 @@ def end_to_end(src, res):
 
 
 # ------------------------------------------------------------------ scope
+_fresh = [0]
+
+
 def gen_int_expr(r, depth, reads, inner=()):
     """an int-valued expression reading from `reads` (outer names) and `inner` (locally bound)"""
     pool = list(reads) + list(inner)
     k = r.randrange(10) if depth > 0 else r.randrange(2)
+    if k == 0 and inner and r.random() < 0.25:
+        # an outer name read at this one place only (inside a nested scope): nothing else in the block can make the
+        # analysis fetch it from the context by accident
+        _fresh[0] += 1
+        return "r%d" % (1000 + _fresh[0])
     if k == 0 and pool:
         return r.choice(pool)
     if k <= 1:
@@ -580,6 +588,16 @@ DIRECTED = [
     ("tab-in-literal", "<%\n\ts = 'a\tb'\n%>${repr(s)}", {}, False, "'a\\tb'", None),
     ("default-pow", '<%def name="f(a=2**3, b=(1 if 0 else 2) + 1)">${a},${b}</%def>${f()}', {}, False, "8,3", None),
     ("default-fstring", "<%def name=\"f(a=f'{1+1}x')\">${a}</%def>${f()}", {}, False, "2x", None),
+    ("fn-dictcomp-value", "<% f = lambda: {i: xv for i in range(2)} %>${f()}", {"xv": 7}, True, "{0: 7, 1: 7}", None),
+    ("fn-dictcomp-key", "<% f = lambda: {xk: i for i in range(1)} %>${f()}", {"xk": "k"}, True, "{'k': 0}", None),
+    ("fn-setcomp-element", "<% f = lambda: {xs for i in range(2)} %>${f()}", {"xs": 5}, True, "{5}", None),
+    ("fn-genexp-element", "<% f = lambda: sum(xg for i in range(2)) %>${f()}", {"xg": 4}, True, "8", None),
+    ("fn-comp-iterable", "<% f = lambda: [i for i in xr] %>${f()}", {"xr": (1, 2)}, True, "[1, 2]", None),
+    ("fn-comp-second-iterable", "<% f = lambda: [(i, j) for i in (1,) for j in xj] %>${f()}", {"xj": (3,)}, True, "[(1, 3)]", None),
+    ("fn-nested-comp-element", "<% f = lambda: [[xn for j in range(1)] for i in range(2)] %>${f()}", {"xn": 1}, True, "[[1], [1]]", None),
+    ("def-dictcomp-value", "<%\ndef g():\n    return {i: xd for i in range(1)}\n%>${g()}", {"xd": 2}, True, "{0: 2}", None),
+    ("def-dictcomp-missing", "<%\ndef g():\n    return {i: nope for i in range(1)}\n%>${g()}", {}, True, "NameError:nope", None),
+    ("fn-comp-target-not-demanded", "<% f = lambda: {i: j for i, j in ((1, 2),)} %>${f()}", {}, True, "{1: 2}", None),
     ("page-default-unhashable", '<%page args="z=[1, 2], y={\'a\': 1}, s={3}"/>${z}${y}${s}', {}, False, "[1, 2]{'a': 1}{3}", None),
     ("page-default-unhashable-given", '<%page args="z=[1, 2]"/>${z}', {"z": [9]}, False, "[9]", None),
     ("def-default-unhashable", '<%def name="f(a=[1, {2: 3}], *b, c={4}, **d)">${a}${c}</%def>${f()}', {}, False, "[1, {2: 3}]{4}", None),
